@@ -359,6 +359,28 @@ def search(ctx):
         if why:
             ctx.violation('synth.unsound', why, input={'spec': spec, 'accepted': accepted, 'solution': sol})
         ctx.count('found')
+        # the same finder asked again after one more constraint: a wire the first answer uses is forbidden
+        if not why and spec['N'] >= 1 and k % 2 == 0:
+            n = spec['n']
+            gk = rng.randrange(spec['N'])
+            wire = [sol['preds'][gk][rng.randrange(2)], n + gk]
+            acc2 = accepted + [['forbidWire', wire[0], wire[1]]]
+            try:
+                f.forbid_wire(wire[0], wire[1])
+                sol2 = circuit_to_sol(spec, f.find_circuit())
+                why2 = check_solution(spec, acc2, sol2)
+                if why2:
+                    ctx.violation('synth.unsound', 'second search on the same finder after forbid_wire(%d, %d): %s' % (wire[0], wire[1], why2),
+                                  input={'spec': spec, 'accepted': acc2, 'solution': sol2, 'second_search': True})
+                ctx.count('second_search:found')
+            except NoSolutionError:
+                ex = brute_force_exists(spec, acc2) if spec['n'] + spec['N'] <= 5 or spec['N'] <= 2 else None
+                if ex is True:
+                    ctx.violation('synth.incomplete', 'second search on the same finder: NoSolutionError although a circuit exists',
+                                  input={'spec': spec, 'accepted': acc2, 'second_search': True})
+                ctx.count('second_search:nosolution')
+            except Exception as e:  # noqa: BLE001
+                ctx.violation('synth.raises', f'second search on the same finder raised {err_name(e)}', input={'spec': spec, 'accepted': acc2})
 
 
 def replay(ctx, rp):
